@@ -255,6 +255,11 @@ def main():
     if '--max-tests' in sys.argv:
         maxtests = int(sys.argv[sys.argv.index('--max-tests') + 1])
     tree = cy.Tree('C43red')
+    summary = []
+    sumpath = None
+    if '--summary' in sys.argv:
+        sumpath = sys.argv[sys.argv.index('--summary') + 1]
+        paths = [p for p in paths if p != sumpath]
     for rp in paths:
         d = core.read_json(rp)
         w = d['witness']
@@ -274,6 +279,10 @@ def main():
             print('\n'.join(res['log']))
             print('-' * 60)
             print(res['text'])
+            summary.append({'key': key, 'what': d.get('what'), 'count': d.get('count'), 'reduced': res['text'], 'ok': res['ok'],
+                            'family': w.get('family'), 'category': w.get('category'), 'cpython': w.get('cpython'), 'replay': rp})
+            if sumpath:
+                core.write_json(sumpath, summary)
             if res.get('hex') and any(ord(c) < 9 or ord(c) > 126 for c in res['text']):
                 print('hex:', res['hex'])
             os.remove(outp)
